@@ -337,22 +337,21 @@ def _abbrev(case: dict, limit: int = 700) -> dict:
 
 def replay_file(prop: str, path: str, runner) -> int:
     item = json.loads(Path(path).read_text())
-    if isinstance(item, list):          # a corpus file: replay every case in it
-        worst = 0
-        for i, case in enumerate(item):
-            tmp = Path(path).with_suffix(f".{i}.tmp.json")
-            tmp.write_text(json.dumps(case))
-            try:
-                worst = max(worst, replay_file(prop, str(tmp), runner))
-            finally:
-                tmp.unlink(missing_ok=True)
-        return worst
-    case = item.get("case", item)
+    cases = item if isinstance(item, list) else [item.get("case", item)]     # a corpus file holds a list
     drv = MeasDriver()
+    worst = 0
     try:
-        out = runner(drv, case)
+        for i, case in enumerate(cases):
+            if len(cases) > 1:
+                print(f"--- case {i} of {path}")
+            worst = max(worst, _replay_case(prop, case, runner, drv, path))
     finally:
         drv.close()
+    return worst
+
+
+def _replay_case(prop: str, case: dict, runner, drv, path: str) -> int:
+    out = runner(drv, case)
     print(f"case kind={case.get('kind')} branch={out.branch}")
     for k, v in out.detail.items():
         print(f"  {k}: {str(v)[:600]}")
